@@ -198,3 +198,28 @@ theorem blade_inner_vector (g : Nat) (hg : 1 ≤ g) (x B : CMV n R) (hx : IsHom 
     exact gpart_hom n _ _
   rw [gpart_of_hom n (g - 1) _ hl]
   funext c; simp only [Pi.smul_apply, Pi.sub_apply, Pi.zero_apply, smul_eq_mul_R]; ring
+
+/-- the outer product with the vector on the right: `B ∧ x = (−1)^g (x ∧ B)` -/
+theorem wedge_blade_vector (g : Nat) (x B : CMV n R) (hx : IsHom n 1 x) (hB : IsHom n g B) :
+    wedge n B x = (sgn g : R) • wedge n x B := by
+  have sig : Nat → R := fun _ => 1
+  rw [← mmul_omt_eq_wedge n sig B x,
+    mmul_hom n sig Model.omtCheck g 1 (g + 1) (fun v => omtCheck_iff v g 1) B x hB hx,
+    blade_mul_vector n sig g x B hx hB, gpart_smul, gpart_sub]
+  have hl : IsHom n (g - 1) (mmul n sig Model.lcmtCheck x B) := by
+    by_cases hg : 1 ≤ g
+    · rw [mmul_hom n sig Model.lcmtCheck 1 g (g - 1) (fun v => by rw [lcmtCheck_iff_of_le v 1 g hg]) x B hx hB]
+      exact gpart_hom n _ _
+    · have h0 : g = 0 := by omega
+      subst h0
+      have : mmul n sig Model.lcmtCheck x B = 0 := by
+        funext c; simp only [mmul, Pi.zero_apply]
+        refine Finset.sum_eq_zero (fun a _ => ?_)
+        by_cases ha : pc n a.val = 1
+        · by_cases hb : pc n (fxor a c).val = 0
+          · rw [ha, hb, lcmtCheck_of_gt (pc n c.val) 1 0 (by decide)]; simp
+          · rw [hB (fxor a c) hb]; simp
+        · rw [hx a ha]; simp
+      rw [this]; intro c _; rfl
+  have hw := wedge_hom n 1 g x B hx hB
+  rw [gpart_of_hom n (g + 1) _ (by rw [Nat.add_comm]; exact hw), gpart_of_hom_ne n (g + 1) (g - 1) (by omega) _ hl, sub_zero]
